@@ -256,6 +256,9 @@ pub struct Runner {
     pub last_panic: Option<String>,
     /// slowest single op so far (seconds, line)
     pub slowest: (f64, String),
+    /// `set_size` has changed the number of columns since the parser was created: rows already in
+    /// the scrollback keep their old width (known finding F12)
+    pub cols_changed: bool,
 }
 
 impl Default for Runner {
@@ -295,6 +298,7 @@ impl Runner {
             scratch: vte::Parser::new(),
             last_panic: None,
             slowest: (0.0, String::new()),
+            cols_changed: false,
         }
     }
 
@@ -340,6 +344,7 @@ impl Runner {
                 };
                 let rec = Rec { events: vec![], resize_policy: *cb == "resize" };
                 self.ev_mark = 0;
+                self.cols_changed = false;
                 let plain = *cb == "plain";
                 match catch(|| {
                     if plain {
@@ -390,6 +395,9 @@ impl Runner {
                 if self.parser.is_none() {
                     return "BADOP".into();
                 }
+                if self.screen().is_some_and(|s| u64::from(s.size().1) != c) {
+                    self.cols_changed = true;
+                }
                 self.guarded(|me| {
                     me.parser.as_mut().unwrap().screen_mut().set_size(r as u16, c as u16);
                     "ok".into()
@@ -433,6 +441,47 @@ impl Runner {
                 None => "NOPARSER".into(),
             },
             ["I"] => "*".into(),
+            // the property's oracle on the current screen (replay / shrinking aid; the model has no such op)
+            ["O", prop] | ["O", prop, ..] => {
+                let Some(s) = self.screen().cloned() else { return "NOPARSER".into() };
+                let args: Vec<u16> = toks[2..].iter().filter_map(|t| t.parse::<u16>().ok()).collect();
+                let slot0 = self.slots.first().cloned().flatten();
+                let prop = prop.to_string();
+                let res = catch(|| -> Option<oracle::Failure> {
+                    match prop.as_str() {
+                        "C01" => oracle::c01(&s, None),
+                        "C13" | "C16" => oracle::c13(&s),
+                        "C15" => {
+                            if args.len() >= 2 {
+                                oracle::c15_window(&s, args[0], args[1])
+                            } else {
+                                oracle::c15_full(&s)
+                            }
+                        }
+                        "C19" => {
+                            let mut recv = oracle::fresh_like(&s);
+                            recv.process(&s.state_formatted());
+                            oracle::c19(&s, recv.screen()).or_else(|| oracle::c19(&s, &s.clone()))
+                        }
+                        "C02" => slot0.as_ref().and_then(|p| oracle::c02(p, &s).or_else(|| oracle::c02(&s, p))),
+                        "C14" | "C12" => {
+                            if args.len() >= 2 {
+                                oracle::c14(&s, args[0], args[1])
+                            } else {
+                                let (_, cols) = s.size();
+                                oracle::c14(&s, 0, cols)
+                            }
+                        }
+                        _ => None,
+                    }
+                });
+                let res = res.map(|f| f.map(|f| oracle::rekey(f, s.scrollback() > 0 || slot0.as_ref().is_some_and(|p| p.scrollback() > 0), self.cols_changed)));
+                match res {
+                    Ok(None) => "ok".into(),
+                    Ok(Some(f)) => format!("FAIL {} {}", f.key, f.desc),
+                    Err(loc) => format!("FAIL panic@{loc}"),
+                }
+            }
             ["F", name] => {
                 let name = name.to_string();
                 if self.parser.is_none() {
